@@ -19,20 +19,23 @@ def _native():
 def replay(q, args, kwargs):
     h = _native()
     va, vb, vc, f1, v1, f2, v2, nops, req, warm = args[:10]
-    times = list(args[10:15])
+    vd = args[15] if len(args) > 15 else kwargs.get('vd', -1)
+    t5 = args[16] if len(args) > 16 else kwargs.get('t5', 0)
+    times = list(args[10:15]) + [t5]
     ops = [(f1, v1), (f2, v2)][:nops]
-    ok, got, fresh = h.history_ok((va, vb, vc), ops, times, req, warm)
+    init = (va, vb, vc, vd)
+    ok, got, fresh = h.history_ok(init, ops, times, req, warm)
     if ok:
         return {'violated': False}
-    if h.known_history((va, vb, vc), ops):
+    if h.known_history(init, ops, req):
         return {'violated': True, 'what': '', 'known': [e['what'] for e in json.load(open(runner.KNOWN))['findings']
                                                         if e['property'] == PID and e.get('status') == 'known'][0]}
     # the same history on a real directory with real files and real mtimes (os.utime)
-    real = real_fs_history(h, (va, vb, vc), ops, times, req, warm)
+    real = real_fs_history(h, init, ops, times, req, warm)
     if real is not None and real[0]:
         return {'violated': False}
     what = ('initial variants %r (mtimes %r), then %s, request %r: long-lived project answers %r, a fresh project %r'
-            % ((va, vb, vc), times[:3], ', '.join('rewrite %s.py with variant %d at mtime %r' % (h.FILES[f], v, times[3 + k])
+            % (init, times[:3], ', '.join('rewrite %s.py with variant %d at mtime %r' % (h.FILES[f], v, times[3 + k])
                                                   for k, (f, v) in enumerate(ops)), h.REQUESTS[req][:2], got, fresh))
     return {'violated': True, 'known': None, 'what': what,
             'replay': {'args': args}}
@@ -46,6 +49,9 @@ def real_fs_history(h, init, ops, times, req, warm):
     shutil.rmtree(root, ignore_errors=True)
     os.makedirs(root)
     base = 1000000000 - min(times)
+
+    os.makedirs(os.path.join(root, 'pk'))
+    open(os.path.join(root, 'pk', '__init__.py'), 'w').close()
 
     def put(f, v, t):
         p = os.path.join(root, f + '.py')
@@ -64,7 +70,7 @@ def real_fs_history(h, init, ops, times, req, warm):
             return [x[:4] for x in h.lint(project, src, fn)]
     for i, f in enumerate(h.FILES):
         if init[i] >= 0:
-            put(f, init[i], times[i])
+            put(f, init[i], times[i] if i < 3 else times[5])
     p = Project([root])
     ask(p, warm)
     for k, (fi, v) in enumerate(ops):
@@ -88,8 +94,10 @@ def run(tier, seed):
             for vb in range(4):
                 if nops == 2 and tier == 'quick' and (va, vb) not in ((0, 0), (0, 2), (1, 3), (2, 2), (3, 3), (0, 3)):
                     continue
-                for req in range(5):
-                    if nops == 2 and tier == 'quick' and req not in (0, 1, 2):
+                for req in range(9):
+                    if nops == 2 and tier == 'quick' and req not in (0, 1, 2, 5, 7):
+                        continue
+                    if req >= 5 and tier == 'quick' and (va, vb) not in ((0, 0), (0, 2), (3, 3)):
                         continue
                     pre = 'nops == %d and va == %d and vb == %d and req == %d' % (nops, va, vb, req)
                     if nops == 1:
@@ -113,8 +121,9 @@ def run(tier, seed):
         if e['property'] == PID and e.get('status') == 'known' and e.get('witness'):
             w = e['witness']
             ops = [tuple(o) for o in w['ops']]
-            ok, got, fresh = h.history_ok(tuple(w['init']), ops, [1, 2, 3, 10, 11], w['req'], w['warm'])
-            real = real_fs_history(h, tuple(w['init']), ops, [1, 2, 3, 10, 11], w['req'], w['warm'])
+            wi = tuple(w['init']) + (-1,) * (4 - len(w['init']))
+            ok, got, fresh = h.history_ok(wi, ops, [1, 2, 3, 10, 11, 12], w['req'], w['warm'])
+            real = real_fs_history(h, wi, ops, [1, 2, 3, 10, 11, 12], w['req'], w['warm'])
             if not ok and not real[0]:
                 rep.known(e['what'])
             else:
@@ -122,9 +131,9 @@ def run(tier, seed):
     rep.functions = ['Project.check_changes', 'Project.get_module/get_nmodule/package_dirs', 'Project._module_cache/_context_cache',
                      'SourceModule.changed/mtime/scope/_attrs', 'nast.extract_scope', 'SourceScope.resolve_star_imports',
                      'ImportedName.resolve', 'assistant.assist/location', 'linter.lint']
-    rep.bounds = ['project of three modules a -> b -> c (star import, attribute use, from-import, re-export: 4 x 4 x 3 content variants, c.py '
-                  'possibly absent at first); histories of 1..2 rewrites (any file, any variant), a warm-up request before and between them; '
-                  '5 final requests (assist on attribute / import line, location, lint); enumerated (E)',
+    rep.bounds = ['project of four modules a -> b -> c and pk.d (star import, attribute use, from-import, re-export: 4 x 4 x 3 x 3 content variants, c.py '
+                  'and pk/d.py possibly absent at first); histories of 1..2 rewrites (any file, any variant), a warm-up request before and between them; '
+                  '9 final requests (assist on attribute / import line / package listing, location, lint; through importers and directly); enumerated (E)',
                   'modification times are symbolic integers (S): only "an edit changes the mtime of the file" is assumed -- clocks may run backwards or repeat']
     rep.assumptions = ['in-memory file system (supp.project.os, supp.module.getmtime/open rebound); ast.parse and nast.extract run under NoTracing',
                        'deleting files, removing __init__.py and shadowing from an earlier root are outside the domain (as the property says)',
